@@ -214,4 +214,27 @@ def validTxsB (P : Params) (h : Nat) : List Tx → DB → Bool
 def validBlockB (P : Params) (b : Block) (db : DB) : Bool := validTxsB P b.height b.txs db
 def noOwnedVoteBlockB (P : Params) (b : Block) : Bool := b.txs.all (noOwnedVoteB P)
 
+
+/-! ### validity with respect to the GLOBAL unspent-output set (wallet independent) -/
+
+/-- the observer that owns every program: its table is the consensus UTXO set (original
+    non-zero and vote outputs created and not yet spent), given consensus' rules that vote
+    outputs are BTM and non-zero -/
+def allOf (P : Params) : Params := { P with p2w := fun _ => true, owner := fun _ => 1 }
+
+def distinctB : List Nat → Bool
+  | [] => true
+  | x :: rest => !rest.contains x && distinctB rest
+
+/-- the transaction spends only outputs of the global set `L` (with the content it claims),
+    creates fresh output ids, and its output ids are pairwise distinct -/
+def gvalidTxB (P : Params) (t : Tx) (L : DB) : Bool :=
+  validTxB (allOf P) t L && distinctB (t.outs.map (·.id))
+
+def gvalidTxsB (P : Params) (h : Nat) : List Tx → DB → Bool
+  | [], _ => true
+  | t :: rest, L => gvalidTxB P t L && gvalidTxsB P h rest (attachTx (allOf P) h L t)
+
+def gvalidBlockB (P : Params) (b : Block) (L : DB) : Bool := gvalidTxsB P b.height b.txs L
+
 end BytomModel.Model.Wallet
